@@ -9,7 +9,7 @@ from c10 import chunks
 LEVEL = "exploration"
 
 # macro sets used here: 0 (default) and 1 (two-segment module, name `event`)
-SETS = [0, 1, 3, 4]
+SETS = [0, 1, 3, 4, 5]
 
 
 def items_for(ms):
@@ -29,6 +29,13 @@ def items_for(ms):
         name + "!();", name + "!(x);", name + "!(MSG);", name + '!(format!("x"));', name + "![1];",
         'let s = "' + S.replace('"', '\\"') + '";',
     ]
+    # a module path of several segments: every proper suffix and every proper prefix of it is a different path
+    segs = mod.split("::")
+    for k in range(1, len(segs)):
+        decoys.append("::".join(segs[k:]) + "::" + name + '!("x");')
+        decoys.append("::".join(segs[:k]) + "::" + name + '!("x");')
+    if len(segs) > 1:
+        decoys.append("::".join(reversed(segs)) + "::" + name + '!("x");')
     # modules and names that are configured, but not as a pair
     for m_, _n in gen.MACRO_SETS[ms]:
         for _m, n_ in gen.MACRO_SETS[ms]:
